@@ -21,7 +21,7 @@ OFF = -(2 ** 30)                   # sentinel: value not an integer / coordinate
 
 RULE = ("every call of the TLA+ enumeration (template sizes x both dimension orders x three spacings; boxes on the ticks "
         "around the template, time intervals, time stamps, catalogue geometries of all nine kinds at two scales, lists of two "
-        "geometries and of three (A, B, A again or another box in the same bins), polygons and multipolygons with holes, value lists of the wrong length; fill, dtype, scalar/list values varied; templates whose time and frequency "
+        "geometries and of three (A, B, A again or another box in the same bins), polygons and multipolygons with holes, value lists of the wrong length, the empty geometry list with every fill; fill, dtype, scalar/list values varied; templates whose time and frequency "
         "ticks are the same numbers (1 s, 1 Hz) with boxes and lists whose time coordinates equal frequency coordinates of another "
         "bin; templates whose step attributes are stale (subsampled axes) or absent) plus random larger templates; "
         "each executed three times (contents A, contents B, all_touched); non-trivial = the call is valid and marks at least one cell")
